@@ -330,8 +330,13 @@ class SourceFile:
 # ---------------------------------------------------------------------------------------
 # rules
 
-def strip_trivia_and_attrs(toks, keep_repr=True):
-    """R1: drop comments, doc comments and attributes (keeps #[repr(..)] on request)."""
+CFG_OFF = set()   # cargo features that are OFF in the configuration under verification (set per unit)
+
+
+def strip_trivia_and_attrs(toks, keep_repr=True, log=None):
+    """R1: drop comments, doc comments and attributes (keeps #[repr(..)] on request).
+    R1b: a statement/block under #[cfg(feature = "F")] with F switched off in the verified configuration is
+    dropped together with the attribute; under #[cfg(not(feature = "F"))] it is kept."""
     out = []
     i = 0
     n = len(toks)
@@ -349,6 +354,25 @@ def strip_trivia_and_attrs(toks, keep_repr=True):
                 attr = norm(text_of(toks[j + 1:e]))
                 if keep_repr and attr.startswith("repr"):
                     out.extend(toks[i:e + 1])
+                m = re.match(r'cfg \( feature = "([^"]+)" \)$', attr)
+                if m and m.group(1) in CFG_OFF:
+                    # drop the attributed block or statement
+                    k = e + 1
+                    while k < n and toks[k].kind in ("ws", "comment", "doc"):
+                        k += 1
+                    if k < n and toks[k].text == "{":
+                        k2 = match_close(toks, k) + 1
+                    else:
+                        k2 = k
+                        while k2 < n and not (toks[k2].kind == "punct" and toks[k2].text == ";"):
+                            if toks[k2].kind == "punct" and toks[k2].text in OPEN:
+                                k2 = match_close(toks, k2)
+                            k2 += 1
+                        k2 += 1
+                    if log is not None:
+                        log.append("R1b: dropped code under #[cfg(feature = \"%s\")] (feature off)" % m.group(1))
+                    i = k2
+                    continue
                 i = e + 1
                 continue
         out.append(t)
@@ -897,6 +921,10 @@ def parse_unit(path):
                 m = re.match(r"global_replace\s+<<(.*?)>>\s+with\s+<<(.*?)>>", d)
                 unit["global_replace"].append((m.group(1), m.group(2)))
                 continue
+            if d.startswith("cfg_off "):
+                for x in d[8:].split(","):
+                    CFG_OFF.add(x.strip())
+                continue
             if d.startswith("global_strings "):
                 unit["strings"] += [x.strip() for x in d[len("global_strings "):].split(",")]
                 continue
@@ -1002,7 +1030,7 @@ def extract_unit(unit_path, repo, out_rs, out_meta):
         log = []
         toks = [Tok(t.kind, t.text, t.pos) for t in orig_toks]
         kind = item["selector"][-1].split()[0]
-        toks = strip_trivia_and_attrs(toks)
+        toks = strip_trivia_and_attrs(toks, log=log)
         # R3 + declared replacements
         for old, new in unit["global_replace"]:
             toks, _ = replace_seq(toks, old, new, log, "R3")
